@@ -49,7 +49,6 @@ func raceSSHSessions() {
 	WriteAuthorizedKeys("alice", Keys[0].Line+"\n")
 	ts := StartServer(10)
 	defer ts.Stop()
-	config.Server.MaxConcurrentCats = 2
 	var files []string
 	for f := 0; f < 3; f++ {
 		var sb strings.Builder
@@ -103,7 +102,6 @@ func raceLongLines() {
 	WriteAuthorizedKeys("alice", Keys[0].Line+"\n")
 	ts := StartServer(10)
 	defer ts.Stop()
-	config.Server.MaxLineLength = 100000
 	var sb strings.Builder
 	for i := 0; i < 40; i++ {
 		sb.WriteString(strings.Repeat(string(rune('A'+i%26)), 40000+i) + "\n")
@@ -130,6 +128,10 @@ func raceLongLines() {
 func racePass(c *core.Ctx) {
 	os.Setenv("VERIF_NATIVE_LOGGER", "stdout")
 	Setup()
+	// configuration is written once, before any server goroutine exists (writing it later would itself race with
+	// readers that are still winding down)
+	config.Server.MaxLineLength = 100000
+	config.Server.MaxConcurrentCats = 2
 	// the clients print to stdout: send file descriptor 1 to /dev/null while the bodies run (at the
 	// descriptor level: assigning os.Stdout would itself race with goroutines that are printing)
 	devnull, _ := os.OpenFile(os.DevNull, os.O_WRONLY, 0)
